@@ -153,4 +153,37 @@ theorem fetch_edges (sel : Edge → Bool) (edges : List Edge) (s t : Nat) :
   · rintro ⟨e, he, hs, rfl, rfl⟩
     exact ⟨e.id, e, ⟨he, hs⟩, rfl⟩
 
+theorem G.foldl_mem_edges (ops : List Op) : ∀ (g : G) (e : Edge),
+    e ∈ (ops.foldl G.step g).edges ↔ e ∈ g.edges ∨ Op.edge e.id e.start e.stop ∈ ops := by
+  induction ops with
+  | nil => intro g e; simp
+  | cons o ops ih =>
+    intro g e
+    rw [List.foldl_cons, ih]
+    cases o with
+    | node m =>
+      simp only [G.step_node, List.mem_cons]
+      constructor
+      · rintro (h | h)
+        · exact Or.inl h
+        · exact Or.inr (Or.inr h)
+      · rintro (h | h | h)
+        · exact Or.inl h
+        · cases h
+        · exact Or.inr h
+    | edge id a b =>
+      simp only [G.step_edge, List.mem_append, List.mem_cons, List.not_mem_nil, or_false]
+      constructor
+      · rintro ((h | h) | h)
+        · exact Or.inl h
+        · subst h; exact Or.inr (Or.inl rfl)
+        · exact Or.inr (Or.inr h)
+      · rintro (h | h | h)
+        · exact Or.inl (Or.inl h)
+        · cases e; cases h; exact Or.inl (Or.inr rfl)
+        · exact Or.inr h
+
+theorem G.mem_edges_ofOps (ops : List Op) (e : Edge) : e ∈ (G.ofOps ops).edges ↔ Op.edge e.id e.start e.stop ∈ ops := by
+  unfold G.ofOps; rw [G.foldl_mem_edges]; simp
+
 end Dawgs.C14
